@@ -129,9 +129,13 @@ def index_bounds(space, o, extra_cls):
 @lemma(args={'space': SSPACE, 'o': 'Obj'}, props=['C15'])
 def state_space_index_bounds(space, o):
     index_bounds(space, o, NoneGridObject)
+    check('shapes', lambda: space.grid_state_shape == space.grid_shape and space.agent_state_shape == 5)
+
+
+@lemma(args={'space': ('new', SP + 'StateSpace', ['Shape', ('list', 'Class', 4), ('list', 'Color', 2)])}, props=['C15'])
+def state_space_representable(space):
     check('representable-iff-every-class-is', lambda: space.can_be_represented == all(
         t.can_be_represented_in_state() for t in space.object_types))
-    check('shapes', lambda: space.grid_state_shape == space.grid_shape and space.agent_state_shape == 5)
 
 
 @lemma(args={'space': OSPACE, 'o': 'Obj'}, props=['C15'])
